@@ -798,6 +798,50 @@ def run(ctx):
                    "saved: %s; restored on the same path after the call: %s" % (line_of(saved) if saved is not None else "no", line_of(restored) if restored is not None else "no"))
     ctx.guard("R04.8", r8)
 
+    # ---------------------------------------------------------------- R04.9 white-space separated lists
+    ctx.rule("R04.9", "the list-valued attributes (target / initial state lists, event descriptor lists, namelist) are split on XML white "
+                      "space - blank, tab, line break - whichever way the document is wrapped: each of the three tokenising functions uses "
+                      "split_ascii_whitespace / split_whitespace (or split on char::is_whitespace), and nothing in the reader splits on a "
+                      "single blank character")
+
+    def r9():
+        def ws_split(c):
+            m = c.get("m") or ""
+            if m in ("split_ascii_whitespace", "split_whitespace"):
+                return True
+            if m == "split" and c["a"]:
+                a = peel(c["a"][0], NO_T)
+                d = describe(a)
+                return "is_whitespace" in d or "is_ascii_whitespace" in d
+            return False
+
+        def blank_split(c):
+            if (c.get("m") or "") not in ("split", "splitn", "split_terminator", "rsplit", "split_inclusive") or not c["a"]:
+                return False
+            v = const_eval(peel(c["a"][-1], NO_T))
+            return v in (" ", "\t", "\n", "\r") or v in (32, 9, 10, 13)
+        good, bad = {}, []
+        for fn in reader_fns(F):
+            owner = fn.path if fn.kind != "Closure" else fn.parent_path
+            for c in fn.walk():
+                if c.get("k") != "mcall" or "str" not in (c.get("p") or ""):
+                    continue
+                if ws_split(c):
+                    good.setdefault(owner, []).append(c)
+                elif blank_split(c):
+                    bad.append((fn, c))
+        ctx.floor("R04.9", "white-space tokenisations in the reader", sum(len(v) for v in good.values()), 3)
+        for must in ("parse_state_specification", "parse_location_expressions", "start_transition"):
+            if not F.has_fn(RS + must):
+                ctx.ob("R04.9", "%s|tokenises on white space" % must, False, "", "function %s%s not found" % (RS, must), kind="anchor")
+                continue
+            p = F.fn(RS + must).path
+            ctx.ob("R04.9", "%s|tokenises on white space" % must, p in good, F.fn(RS + must).where,
+                   "%d split_ascii_whitespace / split_whitespace call(s)" % len(good.get(p, [])))
+        ctx.ob("R04.9", "reader|no split on a single blank character", not bad, line_of(bad[0][1]) if bad else "",
+               "; ".join("%s: %s" % (fn.path, describe(c)) for fn, c in bad) or "none")
+    ctx.guard("R04.9", r9)
+
 
 def wire_arm(a):
     p = a["pat"]
